@@ -23,7 +23,7 @@ Lemma BT_rules_change_gen root s s' : BT root s ->
   is_usedb s' = is_usedb s -> is_epoch s' = is_epoch s ->
   (forall t y, task_of s t = Some y -> exists z, task_of s' t = Some z /\ core2 z = core2 y) ->
   (forall t z, task_of s' t = Some z -> exists y, task_of s t = Some y /\ core2 z = core2 y) ->
-  (forall k, stored s' k = stored s k) -> (forall k, deps s' k = deps s k) -> (forall k, res_sig (res_of s' k) = res_sig (res_of s k)) ->
+  (forall k, stored s' k = stored s k) -> (forall t y, task_of s t = Some y -> deps s' t = deps s t) -> (forall k, res_sig (res_of s' k) = res_sig (res_of s k)) ->
   (forall k, curk s k -> curk s' k) -> (forall k, curk s' k -> curk s k \/ stored s k = cvK k) ->
   (forall rq, Unrouted s' rq -> Unrouted s rq) -> (forall rq, Unrouted s rq -> iq_task rq <> None -> Unrouted s' rq) ->
   is_fininreq s' = is_fininreq s -> is_fintasks s' = is_fintasks s ->
@@ -45,10 +45,10 @@ Proof.
     destruct (Hfw t ti Hg) as (z & Hz & Hc). apply core2_fields in Hc. destruct Hc as (Hs & _). exists z. split; auto. now rewrite Hs.
   - intros rq. rewrite Hf. intros Hin. now apply Hc1, T5.
   - intros t z Hz. destruct (Hbw t z Hz) as (ti & Hg & Hc). apply core2_fields in Hc. destruct Hc as (E1 & E2 & E3 & E4 & E5).
-    destruct (T6 t ti Hg) as [K1 K2 K3 K4 K5 K6 K7 K8 K9 K10 K11]. constructor; rewrite ?E1, ?E2, ?E3, ?E5; auto.
+    destruct (T6 t ti Hg) as [K1 K2 K3 K4 K5 K6 K7 K8 K9 K10 K11]. pose proof (Hdp t ti Hg) as Hdt. clear Hdp. rename Hdt into Hdp. constructor; rewrite ?E1, ?E2, ?E3, ?E5; auto.
     + intros i Hu' Hn0. destruct (K3 i Hu' Hn0) as (rq & H1 & H2 & H3). exists rq. split; auto. apply O1; auto. congruence.
     + rewrite Hft, Hst. exact K6.
-    + intros i y Hi' Hy. rewrite Hdp. destruct (K7 i y Hi' Hy) as [(rq & H1 & H2 & H3)|H]; [left; exists rq; split; auto; apply HU1; auto; congruence|now right].
+    + intros i y Hu0 Hi' Hy. rewrite Hdp. destruct (K7 i y Hu0 Hi' Hy) as [(rq & H1 & H2 & H3)|H]; [left; exists rq; split; auto; apply HU1; auto; congruence|now right].
     + intros d. rewrite Hdp. intros Hin. destruct (K8 d Hin) as [H|(rq & H1 & H2 & H3)]; [left; now apply Hc1|right; exists rq; split; auto; apply O1; auto; congruence].
     + intros d. rewrite Hdp. apply K9.
     + rewrite Hft, Hsg. exact K11.
@@ -65,7 +65,7 @@ Lemma BT_rules_change root s s' : BT root s ->
   (In (dummy_root root) (is_inreq s') \/ (exists k, In (dummy_root root) (ri_paused (rinfo_of s' k))) \/ is_in_progress s' root = true \/ curk s' root) ->
   BT root s'.
 Proof.
-  intros HT Hu He Htk. apply BT_rules_change_gen; auto.
+  intros HT Hu He Htk Hst Hdp. apply BT_rules_change_gen; auto.
   - intros t y Hy. exists y. rewrite Htk. auto.
   - intros t z Hz. exists z. rewrite <- Htk. auto.
 Qed.
@@ -74,18 +74,37 @@ Lemma res_ext s s' k : stored s' k = stored s k -> cAt s' k = cAt s k -> bAt s' 
   res_sig (res_of s' k) = res_sig (res_of s k) -> res_of s' k = res_of s k.
 Proof. unfold stored, cAt, bAt, deps. destruct (res_of s' k), (res_of s k). cbn. intros. subst. reflexivity. Qed.
 
-(* the stored results when only state kinds and build stamps change: a rule either keeps its stamp, or it is stamped complete
-   (demandRule on a rule that does not need to run) *)
+Lemma in_drop_single d ds : In d (drop_single ds) <-> In d ds /\ d_single d = false.
+Proof. unfold drop_single. rewrite filter_In. split; intros [H1 H2]; split; auto; destruct (d_single d); auto; discriminate. Qed.
+
+(* cleanSingleUseDependencies does not touch what a row says *)
+Lemma rowok_drop s s' k : (forall x, stored s' x = stored s x) -> (forall x, cAt s' x = cAt s x) -> bAt s' k = bAt s k ->
+  deps s' k = drop_single (deps s k) -> rowok s k -> rowok s' k.
+Proof.
+  intros Hst Hca Hb Hd (v & Hv & Ho & Hm & Hc). exists v. split; [now rewrite Hst|]. split; [exact Ho|]. split.
+  - intros d. rewrite Hd. intros Hin. apply in_drop_single in Hin. apply Hm, Hin.
+  - intros Hf. destruct Hc as [Hc1 Hc2].
+    + intros d Hin Hor Hsi. rewrite <- Hca, <- Hb. apply Hf; auto. rewrite Hd. apply in_drop_single. auto.
+    + unfold ImplInc1.concl in *. cbn zeta in *.
+      assert (Hreq : map (stored s') (r_req (rules k)) = map (stored s) (r_req (rules k))) by (apply map_ext; intros; apply Hst).
+      rewrite Hreq. set (bk := branch_keys (rules k) (map (stored s) (r_req (rules k)))) in *.
+      assert (Hbk : map (stored s') bk = map (stored s) bk) by (apply map_ext; intros; apply Hst).
+      rewrite Hbk. split; auto. intros x Hx. rewrite Hd. apply in_drop_single. split; auto.
+Qed.
+
+(* the stored results when only state kinds and build stamps change: a rule either keeps its stamp (its single-use dependencies
+   may be dropped if it is not complete), or it is stamped complete (demandRule on a rule that does not need to run) *)
 Lemma BC_kinds s s' : BC s -> is_epoch s' = is_epoch s ->
-  (forall k, stored s' k = stored s k) -> (forall k, cAt s' k = cAt s k) -> (forall k, deps s' k = deps s k) ->
+  (forall k, stored s' k = stored s k) -> (forall k, cAt s' k = cAt s k) ->
+  (forall k, deps s' k = deps s k \/ (deps s' k = drop_single (deps s k) /\ ~ curk s' k /\ bAt s' k = bAt s k)) ->
   (forall k, res_sig (res_of s' k) = res_sig (res_of s k)) -> (forall k, ri_cancelled (rinfo_of s' k) = false) ->
   (forall k, idle s' k -> idle s k) -> (forall k, curk s k -> curk s' k) ->
   (forall k, (bAt s' k = bAt s k /\ (curk s' k -> curk s k)) \/
-             (bAt s' k = is_epoch s /\ kind_of s' k = KComplete /\ idle s k /\ bAt s k <> 0 /\ (forall v, stored s k = Some v -> concl s k v) /\
+             (bAt s' k = is_epoch s /\ kind_of s' k = KComplete /\ idle s k /\ bAt s k <> 0 /\ deps s' k = deps s k /\ (forall v, stored s k = Some v -> concl s k v) /\
               forall d, In d (deps s k) -> curk s' (d_key d))) ->
   BC s'.
 Proof.
-  intros [C1 C2 C3 C4 C5 C6 C7 C8] He Hst Hca Hdp Hsg Hnc Hid Hc1 Hb.
+  intros [C1 C2 C3 C4 C5 C6 C7] He Hst Hca Hdp Hsg Hnc Hid Hc1 Hb.
   constructor.
   - exact Hnc.
   - intros k Hi. rewrite Hca. destruct (Hb k) as [[Eb _]|(Eb & _)]; rewrite Eb; [apply C2; auto|apply C3].
@@ -93,15 +112,16 @@ Proof.
   - intros k. rewrite He. destruct (Hb k) as [[Eb _]|(Eb & Hk & _)]; [|auto]. rewrite Eb. intros Hbe.
     assert (Hc : curk s k) by (split; [now apply C4|exact Hbe]). apply (Hc1 k Hc).
   - intros k. rewrite Hsg. destruct (Hb k) as [[Eb _]|(Eb & _ & _ & Hb0 & _)]; [rewrite Eb; apply C5|intros _; now apply C5].
-  - intros k Hi Hb'. destruct (Hb k) as [[Eb Hcc]|(Eb & Hk & Hi0 & Hb0 & Hco & Hdc)].
-    + rewrite Eb in Hb'. pose proof (res_ext s s' k (Hst k) (Hca k) Eb (Hdp k) (Hsg k)) as Hr.
-      apply (rowok_step rules F s s' k Hr); [|apply C6; auto].
-      intros d _ _. left. rewrite Hst, Hca. split; auto. lia.
-    + destruct (C6 k Hi0 Hb0) as (v & Hv & Ho & Hm & _). exists v. split; [now rewrite Hst|]. split; [exact Ho|]. split; [now rewrite Hdp|].
-      intros _. apply (concl_same rules F s s' k v (Hdp k)); auto.
-  - intros k Hc d. rewrite Hdp. intros Hd. destruct (Hb k) as [[Eb Hcc]|(_ & _ & _ & _ & _ & Hdc)]; [|now apply Hdc].
-    apply Hc1. apply (C7 k (Hcc Hc) d Hd).
-  - intros k d. rewrite Hdp. apply C8.
+  - intros k Hi Hb'. destruct (Hb k) as [[Eb Hcc]|(Eb & Hk & Hi0 & Hb0 & Hd0 & Hco & Hdc)].
+    + rewrite Eb in Hb'. destruct (Hdp k) as [Hd|(Hd & _)].
+      * pose proof (res_ext s s' k (Hst k) (Hca k) Eb Hd (Hsg k)) as Hr.
+        apply (rowok_step rules F s s' k Hr); [|apply C6; auto].
+        intros d _ _ _. left. rewrite Hst, Hca. split; auto. lia.
+      * apply (rowok_drop s s' k); auto.
+    + destruct (C6 k Hi0 Hb0) as (v & Hv & Ho & Hm & _). exists v. split; [now rewrite Hst|]. split; [exact Ho|]. split; [now rewrite Hd0|].
+      intros _. apply (concl_same rules F s s' k v Hd0); auto.
+  - intros k Hc d. destruct (Hb k) as [[Eb Hcc]|(_ & _ & _ & _ & Hd0 & _ & Hdc)]; [|rewrite Hd0; now apply Hdc].
+    destruct (Hdp k) as [Hd|(_ & Hn & _)]; [|contradiction]. rewrite Hd. intros Hin. apply Hc1. apply (C7 k (Hcc Hc) d Hin).
 Qed.
 
 Lemma valid_stored s s' k : stored s' k = stored s k -> valid rules env k (res_of s' k) = valid rules env k (res_of s k).
@@ -110,7 +130,8 @@ Proof. unfold stored, valid. intros ->. reflexivity. Qed.
 (* the scanning side under the same kind of change; new scan requests, newly scanning rules and rules newly found not to need
    to run bring their own facts *)
 Lemma BS_kinds x x' s s' : BS x s -> (forall rq, Sreq s rq -> kind_of s (sq_rule rq) = KScanning) ->
-  (forall k, stored s' k = stored s k) -> (forall k, cAt s' k = cAt s k) -> (forall k, deps s' k = deps s k) ->
+  (forall k, stored s' k = stored s k) -> (forall k, cAt s' k = cAt s k) ->
+  (forall k, kind_of s k = KScanning \/ kind_of s k = KDoesNotNeedToRun -> deps s' k = deps s k) ->
   (forall k, curk s k -> curk s' k) -> (forall k, kind_of s k = KScanning -> bAt s' k = bAt s k) ->
   (forall rq, Sreq s' rq -> Sreq s rq \/
      forall j d, (j < sq_index rq)%nat -> nth_error (deps s' (sq_rule rq)) j = Some d ->
@@ -128,32 +149,32 @@ Lemma BS_kinds x x' s s' : BS x s -> (forall rq, Sreq s rq -> kind_of s (sq_rule
 Proof.
   intros [S1 S2 S3 S4] Hss Hst Hca Hdp Hc1 Hbs Hsr Hsi Hsc Hdn. constructor.
   - intros rq Hrq j d Hj Hn. destruct (Hsr rq Hrq) as [Hold|Hnew]; [|now apply (Hnew j d)].
-    rewrite Hdp in Hn. destruct (S1 rq Hold j d Hj Hn) as [Hc Hf]. split; [now apply Hc1|]. rewrite Hca, (Hbs _ (Hss rq Hold)). exact Hf.
+    rewrite (Hdp _ (or_introl (Hss rq Hold))) in Hn. destruct (S1 rq Hold j d Hj Hn) as [Hc Hf]. split; [now apply Hc1|]. rewrite Hca, (Hbs _ (Hss rq Hold)). exact Hf.
   - intros k Hk. destruct (Hsc k Hk) as [(Hk0 & Hrec)|H]; [|exact H].
     destruct (S2 k Hk0) as (B1 & B2 & B3). rewrite (Hbs k Hk0), (valid_stored s s' k (Hst k)). auto.
   - intros k Hk. destruct (Hdn k Hk) as [(Hk0 & Eb & Hp)|H]; [|exact H].
     destruct (S3 k Hk0) as ((v & Hv & Hcv & Hco) & Hd & Hb & Hpe). split; [|split; [|split]].
-    + exists v. split; [now rewrite Hst|]. split; auto. apply (concl_same rules F s s' k v (Hdp k)); auto.
-    + intros d. rewrite Hdp. intros Hin. now apply Hc1, Hd.
+    + exists v. split; [now rewrite Hst|]. split; auto. apply (concl_same rules F s s' k v (Hdp k (or_intror Hk0))); auto.
+    + intros d. rewrite (Hdp k (or_intror Hk0)). intros Hin. now apply Hc1, Hd.
     + now rewrite Eb.
     + now apply Hp.
-  - intros rq Hrq i d Hi. destruct (Hsi rq Hrq) as [Hold|Hnew]; [rewrite Hdp; now apply (S4 rq Hold i d)|now apply (Hnew i d)].
+  - intros rq Hrq i d Hi. destruct (Hsi rq Hrq) as [Hold|Hnew]; [rewrite (Hdp _ (or_introl (Hss rq Hold))); now apply (S4 rq Hold i d)|now apply (Hnew i d)].
 Qed.
 
 Hypothesis Hrank : wf_rank rules rank.
 Hypothesis Hdisc : forall k, r_disc (rules k) = [].
 
 (* a valid row all of whose recorded inputs are complete and were not recomputed after it was built holds the clean value *)
-Lemma row_clean root s k : BT root s -> rowok s k -> valid rules env k (res_of s k) = true ->
+Lemma row_clean s k : (forall y, curk s y -> stored s y = cvK y) -> rowok s k -> valid rules env k (res_of s k) = true ->
   (forall d, In d (deps s k) -> curk s (d_key d) /\ (d_order d = false -> cAt s (d_key d) <= bAt s k)) ->
   exists v, stored s k = Some v /\ Some v = cvK k /\ concl s k v.
 Proof.
   intros HT (v & Hv & Ho & Hm & Hc) Hval Hd.
-  assert (Hfr : ImplInc1.fresh s k) by (intros d Hin Hor; now apply (Hd d Hin)).
+  assert (Hfr : ImplInc1.fresh s k) by (intros d Hin Hor _; now apply (Hd d Hin)).
   pose proof (Hc Hfr) as Hco. exists v. split; auto. split; auto.
   destruct Hco as [Hf Hrec]. cbn zeta in Hf, Hrec.
   assert (Hcl : forall y, In (mkDep y false false) (deps s k) -> stored s y = cvK y).
-  { intros y Hy. apply (b_cur _ _ _ _ _ _ HT). apply (Hd _ Hy). }
+  { intros y Hy. apply HT. apply (Hd _ Hy). }
   assert (Hreq : map (stored s) (r_req (rules k)) = map cvK (r_req (rules k))).
   { apply map_ext_in. intros y Hy. apply Hcl, Hrec. apply in_or_app. now left. }
   rewrite Hreq in Hf, Hrec. change (branch_keys (rules k) (map cvK (r_req (rules k)))) with (bkK rules env F rank k) in Hf, Hrec.
@@ -166,66 +187,61 @@ Proof.
   rewrite <- Hsnd. rewrite (surjective_pairing v) at 1. f_equal. rewrite Hf. f_equal. rewrite map_app, !map_map. reflexivity.
 Qed.
 
-Lemma drop_single_id ds : (forall d, In d ds -> d_single d = false) -> drop_single ds = ds.
-Proof.
-  unfold drop_single. induction ds as [|d ds IH]; intros H; cbn [filter]; auto.
-  rewrite (H d (or_introl eq_refl)). cbn [negb]. f_equal. apply IH. intros d' Hd'. apply H. now right.
-Qed.
-
-Lemma ri_clean_single_id ri : (forall d, In d (res_deps (ri_res ri)) -> d_single d = false) -> ri_clean_single ri = ri.
-Proof. intros H. destruct ri as [kd [v sg c b ds] p df cn]. unfold ri_clean_single, ri_with_res, res_with_deps. cbn [ri_res ri_kind ri_paused ri_deferred ri_cancelled res_value res_sig res_computedAt res_builtAt res_deps] in *. now rewrite (drop_single_id ds H). Qed.
-
-(* the five outcomes of scanRule, for a rule whose record has no single-use dependency and is not marked cancelled *)
+(* the five outcomes of scanRule, for a rule that is not marked cancelled; [ri_clean_single]: its single-use dependencies are dropped *)
 Definition scan_outcome (s : istate) (k : key) (b : bool) (ri1 : rinfo) (ts1 : list sreq) : Prop :=
+  let rc := ri_clean_single (rinfo_of s k) in
   (b = true /\ is_scanned s k = true /\ ri1 = rinfo_of s k /\ ts1 = is_toscan s) \/
   (b = false /\ kind_of s k = KScanning /\ ri1 = rinfo_of s k /\ ts1 = is_toscan s) \/
-  (b = true /\ is_scanned s k = false /\ kind_of s k <> KScanning /\ ri1 = ri_with_kind KNeedsToRun (rinfo_of s k) /\ ts1 = is_toscan s) \/
-  (b = true /\ is_scanned s k = false /\ kind_of s k <> KScanning /\ bAt s k <> 0 /\ valid rules env k (res_of s k) = true /\ deps s k = [] /\
-     ri1 = ri_with_kind KDoesNotNeedToRun (rinfo_of s k) /\ ts1 = is_toscan s) \/
-  (b = false /\ is_scanned s k = false /\ kind_of s k <> KScanning /\ bAt s k <> 0 /\ valid rules env k (res_of s k) = true /\ deps s k <> [] /\
-     ri1 = ri_begin_scan (rinfo_of s k) /\ ts1 = mkSReq k 0%nat None false false :: is_toscan s).
+  (b = true /\ is_scanned s k = false /\ kind_of s k <> KScanning /\ ri1 = ri_with_kind KNeedsToRun rc /\ ts1 = is_toscan s) \/
+  (b = true /\ is_scanned s k = false /\ kind_of s k <> KScanning /\ bAt s k <> 0 /\ valid rules env k (res_of s k) = true /\ drop_single (deps s k) = [] /\
+     ri1 = ri_with_kind KDoesNotNeedToRun rc /\ ts1 = is_toscan s) \/
+  (b = false /\ is_scanned s k = false /\ kind_of s k <> KScanning /\ bAt s k <> 0 /\ valid rules env k (res_of s k) = true /\ drop_single (deps s k) <> [] /\
+     ri1 = ri_begin_scan rc /\ ts1 = mkSReq k 0%nat None false false :: is_toscan s).
 
-Lemma scan_rule_gen s k : (forall d, In d (deps s k) -> d_single d = false) -> ri_cancelled (rinfo_of s k) = false ->
+Lemma scan_rule_gen s k : ri_cancelled (rinfo_of s k) = false ->
   exists b s1 ri1, scan_rule rules env s k = (b, s1) /\
     (forall k', rinfo_of s1 k' = if N.eqb k' k then ri1 else rinfo_of s k') /\ is_tasks s1 = is_tasks s /\ is_inreq s1 = is_inreq s /\
     is_fininreq s1 = is_fininreq s /\ is_fintasks s1 = is_fintasks s /\ is_ready s1 = is_ready s /\ is_usedb s1 = is_usedb s /\ is_epoch s1 = is_epoch s /\
     scan_outcome s k b ri1 (is_toscan s1).
 Proof.
-  intros Hns Hnc. unfold scan_rule.
+  intros Hnc. unfold scan_rule.
   assert (Hid : forall k', (if N.eqb k' k then rinfo_of s k else rinfo_of s k') = rinfo_of s k').
   { intros k'. destruct (N.eqb k' k) eqn:E; auto. apply N.eqb_eq in E. now subst. }
   destruct (is_scanned s k) eqn:E1.
   { exists true, s, (rinfo_of s k). split; auto. split; [intros; now rewrite Hid|]. repeat split; auto. left. auto. }
   destruct (kind_eqb (kind_of s k) KScanning) eqn:E2.
   { apply kind_eqb_eq in E2. exists false, s, (rinfo_of s k). split; auto. split; [intros; now rewrite Hid|]. repeat split; auto. right. left. auto. }
-  apply kind_eqb_neq in E2. cbn zeta.
-  pose proof (ri_clean_single_id (rinfo_of s k) Hns) as Hcl.
+  apply kind_eqb_neq in E2.
+  set (rc := ri_clean_single (rinfo_of s k)).
   set (s0 := mod_ri s k ri_clean_single).
-  assert (R0 : forall k', rinfo_of s0 k' = rinfo_of s k').
-  { intros k'. unfold s0. rewrite rinfo_of_mod_ri, Hcl. apply Hid. }
-  assert (Hr0 : res_of s0 k = res_of s k) by (unfold res_of; now rewrite R0).
-  rewrite Hr0. unfold need.
-  assert (Kneed : forall sx r i, (forall k', rinfo_of sx k' = rinfo_of s k') -> is_tasks sx = is_tasks s -> is_inreq sx = is_inreq s -> is_fininreq sx = is_fininreq s ->
+  assert (R0 : forall k', rinfo_of s0 k' = if N.eqb k' k then rc else rinfo_of s k') by (intros k'; unfold s0; now rewrite rinfo_of_mod_ri).
+  assert (Hr0 : res_of s0 k = ri_res rc) by (unfold res_of; now rewrite R0, N.eqb_refl).
+  assert (Hb0 : res_builtAt (ri_res rc) = res_builtAt (res_of s k)) by reflexivity.
+  assert (Hs0 : res_sig (ri_res rc) = res_sig (res_of s k)) by reflexivity.
+  assert (Hv0 : valid rules env k (ri_res rc) = valid rules env k (res_of s k)) by reflexivity.
+  assert (Hd0 : res_deps (ri_res rc) = drop_single (deps s k)) by reflexivity.
+  rewrite Hr0, Hb0, Hs0, Hv0, Hd0. unfold need.
+  assert (Kneed : forall sx r i, (forall k', rinfo_of sx k' = rinfo_of s0 k') -> is_tasks sx = is_tasks s -> is_inreq sx = is_inreq s -> is_fininreq sx = is_fininreq s ->
             is_fintasks sx = is_fintasks s -> is_ready sx = is_ready s -> is_usedb sx = is_usedb s -> is_epoch sx = is_epoch s -> is_toscan sx = is_toscan s ->
             exists b s1 ri1, (true, iemit (set_kind sx k KNeedsToRun) (ENeed k r i)) = (b, s1) /\
               (forall k', rinfo_of s1 k' = if N.eqb k' k then ri1 else rinfo_of s k') /\ is_tasks s1 = is_tasks s /\ is_inreq s1 = is_inreq s /\
               is_fininreq s1 = is_fininreq s /\ is_fintasks s1 = is_fintasks s /\ is_ready s1 = is_ready s /\ is_usedb s1 = is_usedb s /\ is_epoch s1 = is_epoch s /\
               scan_outcome s k b ri1 (is_toscan s1)).
   { intros sx r i H1 H2 H3 H4 H5 H6 H7 H8 H9. eexists _, _, _. split; [reflexivity|]. split.
-    - intros k'. autorewrite with iv. rewrite !H1. reflexivity.
+    - intros k'. autorewrite with iv. rewrite !H1, !R0, N.eqb_refl. destruct (N.eqb k' k); reflexivity.
     - autorewrite with iv. repeat split; auto. right. right. left. repeat split; auto. }
   destruct (N.eqb (res_builtAt (res_of s k)) 0) eqn:Eb; [apply Kneed; auto; unfold s0; now autorewrite with iv|].
-  assert (Hc0 : ri_cancelled (rinfo_of s0 k) = false) by now rewrite R0. rewrite Hc0.
+  assert (Hc0 : ri_cancelled (rinfo_of s0 k) = false) by (rewrite R0, N.eqb_refl; exact Hnc). rewrite Hc0.
   destruct (negb (N.eqb (r_sig (rules k)) (res_sig (res_of s k)))); [apply Kneed; auto; unfold s0; now autorewrite with iv|].
   destruct (valid rules env k (res_of s k)) eqn:Ev; cbn [negb]; [|apply Kneed; auto; unfold s0; now autorewrite with iv].
   apply N.eqb_neq in Eb.
-  destruct (res_deps (res_of s k)) as [|d ds] eqn:Ed.
+  destruct (drop_single (deps s k)) as [|d ds] eqn:Ed.
   - eexists _, _, _. split; [reflexivity|]. split.
-    + intros k'. autorewrite with iv. rewrite !R0. reflexivity.
+    + intros k'. autorewrite with iv. rewrite !R0, N.eqb_refl. destruct (N.eqb k' k); reflexivity.
     + unfold s0. autorewrite with iv. repeat split; auto. right. right. right. left. repeat split; auto.
   - eexists _, _, _. split; [reflexivity|]. split.
-    + intros k'. autorewrite with iv. rewrite !R0. reflexivity.
-    + unfold s0. autorewrite with iv. repeat split; auto. right. right. right. right. repeat split; auto. unfold deps. rewrite Ed. discriminate.
+    + intros k'. autorewrite with iv. rewrite !R0, N.eqb_refl. destruct (N.eqb k' k); reflexivity.
+    + unfold s0. autorewrite with iv. repeat split; auto. right. right. right. right. repeat split; auto. rewrite Ed. discriminate.
 Qed.
 
 Lemma BS_weaken x s : BS None s -> BS x s.
@@ -239,33 +255,36 @@ Proof.
   - cbn [kind_eqb andb] in H. apply N.eqb_neq in H. repeat split; try discriminate; auto. intros [_ H2]. contradiction.
 Qed.
 
-(* scanRule gives an unscanned idle rule its new state kind *)
-Lemma BInv_rekind root x' su su1 k kd' : BInv root None su -> sreq_scanning su ->
-  (forall k', rinfo_of su1 k' = if N.eqb k' k then ri_with_kind kd' (rinfo_of su k) else rinfo_of su k') ->
+(* scanRule gives an unscanned idle rule its new state kind (and drops its single-use dependencies) *)
+Lemma BInv_rekind root x' su su1 k kd' : BInv root None su -> sreq_scanning su -> task_of su k = None ->
+  (forall k', rinfo_of su1 k' = if N.eqb k' k then ri_with_kind kd' (ri_clean_single (rinfo_of su k)) else rinfo_of su k') ->
   is_tasks su1 = is_tasks su -> is_inreq su1 = is_inreq su -> is_fininreq su1 = is_fininreq su -> is_fintasks su1 = is_fintasks su ->
   is_usedb su1 = is_usedb su -> is_epoch su1 = is_epoch su ->
   is_scanned su k = false -> kind_of su k <> KScanning ->
   (forall rq, In rq (is_toscan su1) <-> (kd' = KScanning /\ rq = mkSReq k 0%nat None false false) \/ In rq (is_toscan su)) ->
   (kd' = KNeedsToRun \/
-   (kd' = KDoesNotNeedToRun /\ bAt su k <> 0 /\ valid rules env k (res_of su k) = true /\ deps su k = [] /\ pending_for su k) \/
+   (kd' = KDoesNotNeedToRun /\ bAt su k <> 0 /\ valid rules env k (res_of su k) = true /\ drop_single (deps su k) = [] /\ pending_for su k) \/
    (kd' = KScanning /\ bAt su k <> 0 /\ valid rules env k (res_of su k) = true /\ x' = Some k)) ->
   BInv root x' su1.
 Proof.
-  intros (HT & HC & HS) Hss RI Htk Hi Hf Hft Hu He Hsc Hns Hts Hcase.
+  intros (HT & HC & HS) Hss Hnt RI Htk Hi Hf Hft Hu He Hsc Hns Hts Hcase.
   destruct (unscanned_not_curk su k Hsc Hns) as (Hnc & Hidle & Hkk).
   assert (Hkd : kd' = KNeedsToRun \/ kd' = KDoesNotNeedToRun \/ kd' = KScanning) by (destruct Hcase as [H|[(H & _)|(H & _)]]; auto).
   assert (RO : forall k', k' <> k -> rinfo_of su1 k' = rinfo_of su k') by (intros k' Hne; rewrite RI; apply N.eqb_neq in Hne; now rewrite Hne).
-  assert (HR : forall k', res_of su1 k' = res_of su k').
-  { intros k'. unfold res_of. rewrite RI. destruct (N.eqb k' k) eqn:E; auto. apply N.eqb_eq in E. now subst. }
+  assert (HRo : forall k', k' <> k -> res_of su1 k' = res_of su k') by (intros k' Hne; unfold res_of; now rewrite (RO k' Hne)).
+  assert (HRk : res_of su1 k = res_with_deps (res_of su k) (drop_single (deps su k))) by (unfold res_of; rewrite RI, N.eqb_refl; reflexivity).
   assert (HK : forall k', kind_of su1 k' = if N.eqb k' k then kd' else kind_of su k').
   { intros k'. unfold kind_of. rewrite RI. destruct (N.eqb k' k); auto. }
   assert (HL : forall k', ri_paused (rinfo_of su1 k') = ri_paused (rinfo_of su k') /\ ri_deferred (rinfo_of su1 k') = ri_deferred (rinfo_of su k') /\
                          ri_cancelled (rinfo_of su1 k') = ri_cancelled (rinfo_of su k')).
   { intros k'. rewrite RI. destruct (N.eqb k' k) eqn:E; auto. apply N.eqb_eq in E. now subst. }
-  assert (Hst : forall k', stored su1 k' = stored su k') by (intros; unfold stored; now rewrite HR).
-  assert (Hca : forall k', cAt su1 k' = cAt su k') by (intros; unfold cAt; now rewrite HR).
-  assert (Hba : forall k', bAt su1 k' = bAt su k') by (intros; unfold bAt; now rewrite HR).
-  assert (Hdp : forall k', deps su1 k' = deps su k') by (intros; unfold deps; now rewrite HR).
+  assert (Hall : forall k', stored su1 k' = stored su k' /\ cAt su1 k' = cAt su k' /\ bAt su1 k' = bAt su k' /\ res_sig (res_of su1 k') = res_sig (res_of su k')).
+  { intros k'. unfold stored, cAt, bAt. destruct (N.eq_dec k' k) as [->|E]; [rewrite HRk; auto|rewrite (HRo k' E); auto]. }
+  assert (Hst : forall k', stored su1 k' = stored su k') by (intros; apply Hall).
+  assert (Hca : forall k', cAt su1 k' = cAt su k') by (intros; apply Hall).
+  assert (Hba : forall k', bAt su1 k' = bAt su k') by (intros; apply Hall).
+  assert (Hdpo : forall k', k' <> k -> deps su1 k' = deps su k') by (intros k' E; unfold deps; now rewrite (HRo k' E)).
+  assert (Hdpk : deps su1 k = drop_single (deps su k)) by (unfold deps at 1; now rewrite HRk).
   assert (Hcu : forall k', curk su1 k' <-> curk su k').
   { intros k'. unfold curk. rewrite HK, Hba, He. destruct (N.eqb k' k) eqn:E; [|tauto]. apply N.eqb_eq in E. subst k'.
     split; [intros [H _]; destruct Hkd as [->|[->| ->]]; discriminate|intros H; contradiction]. }
@@ -274,16 +293,23 @@ Proof.
   assert (Hip : forall k', is_in_progress su1 k' = is_in_progress su k').
   { intros k'. unfold is_in_progress. rewrite HK. destruct (N.eqb k' k) eqn:E; auto. apply N.eqb_eq in E. subst k'.
     destruct Hidle as [I1 I2]. destruct Hkd as [->|[->| ->]]; destruct (kind_of su k); auto; contradiction. }
+  assert (Hsd : forall k', kind_of su k' = KScanning \/ kind_of su k' = KDoesNotNeedToRun -> deps su1 k' = deps su k').
+  { intros k' Hk'. apply Hdpo. intros ->. destruct Hkk as [H|H]; rewrite H in Hk'; destruct Hk'; discriminate. }
   split; [|split].
-  - apply (BT_rules_change root su su1 HT); auto.
-    + intros k'. now rewrite HR.
+  - apply (BT_rules_change_gen root su su1 HT); auto.
+    + intros t y Hy. exists y. rewrite Htask. auto.
+    + intros t z Hz. exists z. rewrite <- Htask. auto.
+    + intros t y Hy. apply Hdpo. intros ->. congruence.
+    + intros k'. apply Hall.
     + intros k' H. now apply Hcu.
     + intros k' H. left. now apply Hcu.
     + intros rq H. now apply HU.
     + intros rq H _. now apply HU.
     + rewrite Hi, Hip. destruct (b_root _ _ _ _ _ _ HT) as [H|[(k0 & H)|[H|H]]]; auto; [right; left; exists k0; now rewrite (proj1 (HL k0))|right; right; right; now apply Hcu].
   - apply (BC_kinds su su1 HC); auto.
-    + intros k'. now rewrite HR.
+    + intros k'. destruct (N.eq_dec k' k) as [->|E]; [right; split; [exact Hdpk|]; split; [|apply Hba]|left; now apply Hdpo].
+      intros H. apply Hcu in H. contradiction.
+    + intros k'. apply Hall.
     + intros k'. rewrite (proj2 (proj2 (HL k'))). apply (b_nc _ _ _ HC).
     + intros k'. unfold idle. rewrite HK. destruct (N.eqb k' k) eqn:E; auto. apply N.eqb_eq in E. now subst.
     + intros k' H. now apply Hcu.
@@ -304,11 +330,12 @@ Proof.
       * intros Hk. left. split; auto. destruct (HL k') as (-> & -> & _). intros [H|[H|H]]; auto; discriminate.
     + intros k'. rewrite HK. destruct (N.eqb k' k) eqn:E.
       * apply N.eqb_eq in E. subst k'. intros ->. right. destruct Hcase as [H|[(_ & B1 & B2 & B3 & B4)|(H & _)]]; try discriminate.
-        assert (Hrow : rowok su k) by (apply (b_rows _ _ _ HC); auto).
-        destruct (row_clean root su k HT Hrow B2) as (v & Hv & Hcv & Hco); [rewrite B3; intros d []|].
+        assert (Hrow : rowok su1 k) by (apply (rowok_drop su su1 k); auto; apply (b_rows _ _ _ HC); auto).
+        assert (Hcur1 : forall y, curk su1 y -> stored su1 y = cvK y) by (intros y Hy; rewrite Hst; apply (b_cur _ _ _ _ _ _ HT); now apply Hcu).
+        destruct (row_clean su1 k Hcur1 Hrow) as (v & Hv & Hcv & Hco); [now rewrite (valid_stored su su1 k (Hst k))|rewrite Hdpk, B3; intros d []|].
         split; [|split; [|split]].
-        -- exists v. split; [now rewrite Hst|]. split; auto. apply (concl_same rules F su su1 k v (Hdp k)); auto.
-        -- rewrite Hdp, B3. intros d [].
+        -- exists v. auto.
+        -- rewrite Hdpk, B3. intros d [].
         -- now rewrite Hba.
         -- destruct B4 as [(rq & H1 & H2)|(rq & H1 & H2)]; [left; exists rq; split; auto; apply Hts; now right|right; exists rq; now rewrite Hi].
       * intros Hk. left. split; auto. split; auto.
